@@ -233,6 +233,53 @@ def wiring_rules(ctx, prog):
             hv = st.mem.get(("f", ("f", cell, "handle"), x))
             if hv is None or len(hv) != 1:
                 bad += 1
+    # ... and each is of the kind validation decided for that stream (nothing re-decides the type in between)
+    Tn = {I.abs_int(prog.const("REPROC_REDIRECT_" + t)): t for t in TYPES}
+    seen_t = set()
+    for e in res.events:
+        if e[0] != "process_start":
+            continue
+        st = e[4]
+        opt = e[3][2]
+        val = st.mon.get("validated")
+        if not (isinstance(opt, tuple) and opt[0] == "agg") or val is None:
+            continue
+        cell = opt[1][0]
+        hv = {x: one(st.mem.get(("f", ("f", cell, "handle"), x))) for x in ("in", "out", "err")}
+        for x, tv in zip(("in", "out", "err"), val):
+            t = Tn.get(tv, str(tv))
+            a = hv[x]
+            kind = st.res.get(a, ("?", None, "?"))[2] if isinstance(a, tuple) and a[0] == "fd" else None
+            if t == "PIPE":
+                ok = kind == ("pipe-read" if x == "in" else "pipe-write")
+                pv = one(st.mem.get(("f", ("f", obj, "pipe"), x)))
+                same_pipe = isinstance(pv, tuple) and pv[0] == "fd" and pv[1] == a[1] and pv[3] == a[3] and pv != a
+                # after start-up input has been written the parent's end of stdin is closed again
+                ok = ok and (same_pipe or (x == "in" and st.mon.get("input") == "set" and pv == prog.const("PIPE_INVALID")))
+            elif t == "PARENT":
+                ok = a == ("ext", "fileno") or kind == "file"
+            elif t in ("DISCARD", "PATH"):
+                ok = kind == "file"
+            elif t == "HANDLE":
+                ok = a == ("uh", x)
+            elif t == "FILE":
+                ok = a == ("ext", "fileno")
+            elif t == "STDOUT":
+                ok = x == "err" and a == hv["out"]
+            else:
+                ok = False
+            if t != "STDOUT" and isinstance(a, tuple) and a[0] == "fd" and any(a == hv[y] for y in hv if y != x and y != "err"):
+                ok = False          # a descriptor the library created for one stream serves another one as well
+            if x == "out" and isinstance(a, tuple) and a[0] == "fd" and a == hv["err"] and Tn.get(val[2]) != "STDOUT":
+                ok = False
+            key = (x, t, ok, None if ok else show(fs(a)) if a is not None else None)
+            if key in seen_t:
+                continue
+            seen_t.add(key)
+            ctx.ob("C10.W4t", "reproc_start -> process_start [%s validated as %s]" % (x, t), "the child's end handed on is of the kind validation "
+                   "decided for this stream - its own pipe end, file, handle ... - and stderr shares stdout's descriptor only when it was "
+                   "validated as 'stdout'", ok, {"handle": str(a), "kind": kind, "stdout_handle": str(hv["out"])}, nontrivial=True)
+    ctx.floor("C10.W4t", 18)
     ctx.ob("C10.W4s", "reproc_start -> process_start", "on every path reaching process_start the three handles are definite values "
            "produced by the constructors", bad == 0 and n > 0, {"calls": n, "indefinite": bad}, nontrivial=True)
 
@@ -289,3 +336,6 @@ def check(ctx):
     constructor_rules(ctx, prog)
     wiring_rules(ctx, prog)
     install_rules(ctx, prog)
+    # settings given through reproc++ name the same types: its enumerators are handed to the C library by cast (C19.F2)
+    from .. import cxxrules
+    cxxrules.c19_enums(ctx, ctx.prog("cxx"), prog)
